@@ -13,11 +13,11 @@ from ..driver import analysis_check, standard_items
 
 def main(tier, seed):
     quick = tier == "quick"
-    items = [it for it in C.corpus_files()][:12] + C.generated(seed, 25 if quick else 200, ngoals=2)
+    items = [it for it in C.corpus_files()][:10] + C.generated(seed, 12 if quick else 200, ngoals=2)
     for it in items:
         gl = it.get("goals") or []
         it["stat_goals"] = [g for g in gl if "*" not in g.replace("**", "")][:2] or gl[:1]
         it["K"] = 4
     return analysis_check("C11", tier, seed, items=items, want=["central", "cumulant"], builders=[C.b_source, C.b_stats],
-                          N=5 if quick else 8, timeout=150,
+                          N=5 if quick else 8, timeout=90 if quick else 200,
                           assumptions=["orders k <= 4; Gram-Charlier / Cornish-Fisher expansions are not covered by this check yet"])
